@@ -64,3 +64,51 @@ Fixpoint stoks_ok (ts : list stok) (k : list byte) : bool :=
   | [] => true
   | t :: r => stok_ok t (srender r ++ k) && stoks_ok r k
   end.
+
+(* ------------------------------------------------------------------------------------------
+   ReadTokenSeparator() / ReadComment() / ReadPcd() (src/clstepcore/read_func.cc): what the eager
+   reader skips between any two tokens - white space, comments, print control directives.
+   ------------------------------------------------------------------------------------------ *)
+Definition BSLASH : byte := 92.
+
+(* ReadPcd(), entered at the reverse solidus: \F\ or \N\ ; anything else is consumed as far as it was looked at *)
+Definition read_pcd (l : list byte) : list byte :=
+  match l with
+  | _ :: c2 :: r =>
+    if (c2 =? 70) || (c2 =? 78) then
+      match r with
+      | c3 :: r' => r'
+      | [] => []
+      end
+    else r
+  | _ :: [] => []
+  | [] => []
+  end.
+
+(* ReadComment( in, s ), entered at a slash (after white space): None = the comment never ends (input exhausted) *)
+Definition read_comment (l : list byte) : option (list byte) :=
+  match l with
+  | _ :: b :: r => if b =? STAR then comment_end (skip_ws r) else Some (b :: r)     (* not a comment: the slash is gone *)
+  | _ :: [] => Some []
+  | [] => Some []
+  end.
+
+Fixpoint read_token_separator (fuel : nat) (l : list byte) : list byte :=
+  match fuel with
+  | O => l
+  | S f =>
+    let l1 := skip_ws l in
+    match l1 with
+    | c :: _ =>
+      if c =? SLASH then
+        match read_comment l1 with
+        | Some r => read_token_separator f r
+        | None => []
+        end
+      else if c =? BSLASH then read_token_separator f (read_pcd l1)
+      else l1
+    | [] => []
+    end
+  end.
+
+Definition token_separator (l : list byte) : list byte := read_token_separator (S (length l)) l.
